@@ -267,6 +267,10 @@ impl Fail {
 /// Canonical JSON of a carrier value, by reference.
 pub trait Snap {
     fn snap(&self) -> Value;
+    /// is this the carrier (Result / Option) or a bare token?  (C12: a `let` name of a try macro holds the carrier)
+    fn wrapped(&self) -> bool {
+        false
+    }
 }
 impl Snap for Tok {
     fn snap(&self) -> Value {
@@ -285,6 +289,9 @@ impl Snap for Res {
             Err(f) => f.snap(),
         }
     }
+    fn wrapped(&self) -> bool {
+        true
+    }
 }
 impl Snap for Opt {
     fn snap(&self) -> Value {
@@ -293,6 +300,12 @@ impl Snap for Opt {
             None => none_v(),
         }
     }
+    fn wrapped(&self) -> bool {
+        true
+    }
+}
+pub fn wrapped<T: Snap>(v: &T) -> bool {
+    v.wrapped()
 }
 pub fn snap<T: Snap>(v: &T) -> Value {
     let _q = Quiet::new();
@@ -487,9 +500,9 @@ pub fn opnd(id: i64) {
     maybe_panic(format!("o{}", id));
 }
 /// block capture: logs its evaluation with the snapshots it took
-pub fn cap(id: i64, reads: &[(i64, Value)]) {
+pub fn cap(id: i64, reads: &[(i64, Value, bool)]) {
     let _q = Quiet::new();
-    let r: Vec<Value> = reads.iter().map(|(b, v)| json!({"b":b,"v":v})).collect();
+    let r: Vec<Value> = reads.iter().map(|(b, v, w)| json!({"b":b,"v":v,"w":w})).collect();
     log(json!({"ev":"cap","id":id,"reads":r}));
     maybe_panic(format!("c{}", id));
 }
